@@ -264,7 +264,7 @@ def run_one(ctx, usim, seed, k, acc):
 
 def classify(rule, detail, plan):
     import re
-    if rule.startswith("C09.deadlock["):
+    if rule.startswith("C09.deadlock[") or rule.startswith("C09.stuck[") or rule.startswith("C09.idle-forever["):
         m = re.search(r"task (\d+) '[^']*' blocked on event_(?:del|free)", detail)
         if m and re.search(r"blocked on mutex held by task %s " % m.group(1), detail):
             return "C09-cancel-blocks-in-event_del-while-callback-waits-for-queue-mutex"
